@@ -179,6 +179,8 @@ class Value:
                             raise ValueError("Currency symbol not recognised")
                         den_input = den
                         break
+                else:
+                    raise ValueError("Currency symbol or denominator not recognised")
             self.value = float(value) * den_input
             self.denominator = den_input if den_arg is None else den_arg
         else:
